@@ -782,6 +782,8 @@ func (fm *fusionModel) fuses(x, y *lexd) (bool, string) {
 // ---- the writer's separator guard ---------------------------------------------------------------------
 
 type sepGuard struct {
+	c        *Ctx
+	folded   bool            // some pair was credited by folding the writer's prologue rather than by the guard's shape
 	pred     *ssa.Function   // func(last, next byte) bool
 	method   *ssa.Function   // the *CodeWriter method that consults pred and writes the space
 	writers  []string        // text-writing methods that call it before emitting
@@ -800,7 +802,7 @@ type sepGuard struct {
 // condition is a test of the PrettyPrint switch (then: only in the corresponding modes).
 func (c *Ctx) findSepGuard() *sepGuard {
 	c.buildSSA()
-	g := &sepGuard{modes: map[string]bool{}}
+	g := &sepGuard{modes: map[string]bool{}, c: c}
 	isByte2Pred := func(f *ssa.Function) bool {
 		if f == nil || f.Signature.Recv() != nil || len(f.Params) != 2 || f.Signature.Results().Len() != 1 {
 			return false
@@ -1108,6 +1110,36 @@ func instrDominatesOrPrecedes(a, b ssa.Instruction) bool {
 
 // covers: the guard puts a space between a text ending in x's last byte and one starting with y's first byte.
 func (g *sepGuard) covers(mode string, x, y *lexd) bool {
+	if g.coversByShape(mode, x, y) {
+		return true
+	}
+	// the guard is not in the recognised shape, or the writer of y does not consult it in the recognised way: fold
+	// the writer's prologue itself for every (last byte, first byte) pair (wfold.go)
+	if g == nil || g.c == nil || y.via == "" || x.last.count() == 0 || y.first.count() == 0 || x.last.count() > 4 || y.first.count() > 4 {
+		return false
+	}
+	for a := 0; a < 256; a++ {
+		if !x.last.has(byte(a)) {
+			continue
+		}
+		for b := 0; b < 256; b++ {
+			if !y.first.has(byte(b)) {
+				continue
+			}
+			if b >= 0x80 {
+				return false
+			}
+			sep, ok := g.c.writerSeparates(y.via, mode, byte(a), byte(b))
+			if !ok || !sep {
+				return false
+			}
+		}
+	}
+	g.folded = true
+	return true
+}
+
+func (g *sepGuard) coversByShape(mode string, x, y *lexd) bool {
 	if g == nil || g.pred == nil || len(g.problems) > 0 {
 		return false
 	}
